@@ -1,35 +1,61 @@
 #!/usr/bin/env python3
-"""tools/trypatch.py <patch.diff | -R <commit>> <Cxx> [<Cxx> ...] [--tier T]
-Applies a change to /repo's working tree, runs the named checks, and ALWAYS restores /repo afterwards."""
-import subprocess, sys, os
+"""tools/trypatch.py <patch.diff | -R <commit>> <Cxx> [<Cxx> ...] [--tier T] [--inplace]
+Runs the named checks against /repo with a change applied.
+Default: the change is applied to a scratch copy of /repo's tracked files at HEAD outside /repo and /verif (NDI_REPO), which is removed
+afterwards - /repo itself is never touched, so several of these can run side by side.
+--inplace: apply to /repo's working tree (git -C /repo apply), run, and ALWAYS restore /repo afterwards (git checkout -- . ; git clean -fd)."""
+import subprocess, sys, os, shutil, tempfile, hashlib
 HERE = os.path.dirname(os.path.dirname(os.path.abspath(__file__)))
 args = sys.argv[1:]
 tier = "quick"
+inplace = "--inplace" in args
+if inplace:
+    args.remove("--inplace")
 if "--tier" in args:
     i = args.index("--tier"); tier = args[i + 1]; del args[i:i + 2]
 if args[0] == "-R":
     commit = args[1]; ids = args[2:]
     diff = subprocess.check_output(["git", "-C", "/repo", "show", commit])
-    apply_cmd = ["git", "-C", "/repo", "apply", "-R", "-"]
+    rev = ["-R"]
 else:
     diff = open(args[0], "rb").read(); ids = args[1:]
-    apply_cmd = ["git", "-C", "/repo", "apply", "-"]
-st = subprocess.check_output(["git", "-C", "/repo", "status", "--porcelain"], text=True)
-if st.strip():
-    print("refusing: /repo is not clean:\n" + st); sys.exit(2)
+    rev = []
 rc = {}
-try:
-    r = subprocess.run(apply_cmd, input=diff)
-    if r.returncode != 0:
-        print("patch does not apply"); sys.exit(3)
+
+
+def run_checks(env):
     for pid in ids:
-        r = subprocess.run([os.path.join(HERE, "check"), pid, "--tier", tier], capture_output=True, text=True,
-                           env=dict(os.environ, NDI_EVID_DIR="/tmp/ndi-trypatch-evidence"))
+        r = subprocess.run([os.path.join(HERE, "check"), pid, "--tier", tier], capture_output=True, text=True, env=env)
         rc[pid] = r.returncode
         print(r.stdout.strip()[-1500:])
         if r.stderr.strip():
             print(r.stderr.strip()[-500:])
-finally:
-    subprocess.run(["git", "-C", "/repo", "checkout", "--", "."])
-    subprocess.run(["git", "-C", "/repo", "clean", "-fdq"])
+
+
+if inplace:
+    st = subprocess.check_output(["git", "-C", "/repo", "status", "--porcelain"], text=True)
+    if st.strip():
+        print("refusing: /repo is not clean:\n" + st); sys.exit(2)
+    try:
+        r = subprocess.run(["git", "-C", "/repo", "apply"] + rev + ["-"], input=diff)
+        if r.returncode != 0:
+            print("patch does not apply"); sys.exit(3)
+        run_checks(dict(os.environ, NDI_EVID_DIR="/tmp/ndi-trypatch-evidence"))
+    finally:
+        subprocess.run(["git", "-C", "/repo", "checkout", "--", "."])
+        subprocess.run(["git", "-C", "/repo", "clean", "-fdq"])
+else:
+    d = tempfile.mkdtemp(prefix="ndi-trypatch-")
+    try:
+        tar = subprocess.run(["git", "-C", "/repo", "archive", "HEAD"], capture_output=True, check=True).stdout
+        subprocess.run(["tar", "-x", "-C", d], input=tar, check=True)
+        r = subprocess.run(["patch", "-p1", "-s", "--no-backup-if-mismatch"] + rev, input=diff, cwd=d)
+        if r.returncode != 0:
+            print("patch does not apply"); sys.exit(3)
+        slot = "-tp" + hashlib.md5(d.encode()).hexdigest()[:6]
+        run_checks(dict(os.environ, NDI_REPO=d, NDI_EVID_DIR=os.path.join(d, "evidence"), NDI_TARGET_SUFFIX=slot))
+    finally:
+        shutil.rmtree(d, ignore_errors=True)
+        for base in ("lib", "witness", "mono"):
+            shutil.rmtree(os.path.join(HERE, ".target", base + "-tp" + hashlib.md5(d.encode()).hexdigest()[:6]), ignore_errors=True)
 print("RESULT", rc)
